@@ -495,6 +495,8 @@ def main(argv=None):
                 if ra.get("failures"):
                     ra["full_variant_undecided"] = r.get("undecided", [])
                     ra["bounded_note"] = "refuted on the paths with at most one iteration of the added loop (R32)"
+                    for _f in ra["failures"]:
+                        _f["bounded_note"] = ra["bounded_note"]
                     r = ra
             results.append(r)
             log("  -> %s  obligations=%s discharged=%s  %.1fs" % (r["status"], r.get("obligations"), r.get("discharged"), r.get("wall_s", 0)))
@@ -569,7 +571,7 @@ def finish(prop, tier, seed, spec, results, canaries, t0, log):
             json.dump({"property": prop, "failed_obligation": f["obligation"], "function": f.get("function"),
                        "kind": f.get("kind"), "clause": f.get("clause"), "origin": f.get("origin"),
                        "related": f.get("related"), "verifier_output": f.get("verifier_output"),
-                       "failing_input": f.get("failing_input"), "replay_native": f.get("replay_native"),
+                       "failing_input": f.get("failing_input"), "replay_native": f.get("replay_native"), "bounded": f.get("bounded_note"),
                        "how_to_replay": f.get("how_to_replay")}, fh, indent=1)
         suffix = "" if f.get("failing_input") is not None else " no-failing-input-found"
         print("VIOLATION property=%s replay=%s obligation=%s%s" % (prop, path, f["obligation"].replace(" ", "_"), suffix), flush=True)
